@@ -149,7 +149,7 @@ def PastPending (s : St) (f : Nat) : Prop := f < s.nextFile ∧ f ∉ s.pending
 def Dead (s : St) (f : Nat) : Prop :=
   f < s.nextFile ∧ f ∉ s.pending ∧ ∀ v ∈ s.active, f ∉ (s.ver v).nos
 
-def DeadR (s : St) (f : Nat) : Prop := Dead s f ∧ f ∉ (s.ver s.cur).rollup
+def DeadR (s : St) (f : Nat) : Prop := Dead s f ∧ f ∉ (s.ver s.cur).rollupFiles
 
 /-- per-job part of the invariant -/
 structure JobOk (s : St) (j : Nat) (b : Job) : Prop where
@@ -169,13 +169,13 @@ structure JobOk (s : St) (j : Nat) (b : Job) : Prop where
     b.csnap < s.nSnap ∧ (s.snap b.csnap).owner = some j ∧ (b.kind = .compact → b.csnap ≠ b.snap)
   edit : editRange b.pc = true →
     (∀ m ∈ b.edit.adds, m.no ∈ outNo b ∨ (b.kind = .compact ∧ m.no ∈ (s.ver (s.snap b.snap).ver).nos)) ∧
-    (∀ f ∈ b.edit.rollAdd, f ∈ outNo b)
+    (∀ f ∈ b.edit.rollAdd.map (·.1), f ∈ outNo b)
   built : b.pc = .cSnapped → b.newVer < s.nextVer ∧ s.ver b.newVer = applyEdit (s.ver s.cur) b.edit
   reading : b.pc = .reading → ∀ f ∈ b.todoIn, f ∈ (s.ver (s.snap b.snap).ver).nos
   inputs : b.pc = .picked → ∀ m ∈ b.inputs, m.no ∈ (s.ver (s.snap b.snap).ver).nos
   recorded : postSwap b.pc = true → b.edit ∈ s.hist
   nfread : b.pc = .cLocked → b.nfRead = s.nextFile
-  rolldel : editRange b.pc = true → b.kind ≠ .rollupDone → b.edit.rollDel = []
+  rolldel : editRange b.pc = true → b.kind ≠ .rollupDone → b.kind ≠ .rollupJob → b.edit.rollDel = []
   listed : b.pc = .doListed → ∀ f ∈ b.dlist, f < s.nextFile
   pended : b.pc = .doPended → ∀ f ∈ b.dlist, f ∉ b.live → PastPending s f
   actived : b.pc = .doActived → ∀ f ∈ b.dlist, f ∉ b.live → Dead s f
@@ -188,8 +188,8 @@ structure Safe (s : St) : Prop where
   open_active : ∀ i, i < s.nSnap → (s.snap i).st = .opened → (s.snap i).ver ∈ s.active
   ver_bound : s.cur < s.nextVer ∧ (∀ v ∈ s.active, v < s.nextVer) ∧ (∀ i, i < s.nSnap → (s.snap i).ver < s.nextVer)
   files_on_disk : ∀ v ∈ s.active, ∀ f ∈ (s.ver v).nos, f ∈ s.disk
-  rollup_on_disk : ∀ f ∈ (s.ver s.cur).rollup, f ∈ s.disk
-  file_bound : (∀ v, ∀ f ∈ (s.ver v).nos, f < s.nextFile) ∧ (∀ v, ∀ f ∈ (s.ver v).rollup, f < s.nextFile) ∧
+  rollup_on_disk : ∀ f ∈ (s.ver s.cur).rollupFiles, f ∈ s.disk
+  file_bound : (∀ v, ∀ f ∈ (s.ver v).nos, f < s.nextFile) ∧ (∀ v, ∀ f ∈ (s.ver v).rollupFiles, f < s.nextFile) ∧
     (∀ f ∈ s.pending, f < s.nextFile) ∧ (∀ f ∈ s.disk, f < s.nextFile)
   jobs : ∀ j, j < s.nJob → JobOk s j (s.job j)
   outs_distinct : ∀ j k, j < s.nJob → k < s.nJob → j ≠ k → ∀ f ∈ outNo (s.job j), f ∉ outNo (s.job k)
